@@ -179,8 +179,25 @@ struct TSE_ : state_machine_def<TSE_> {
   template<class F,class Ev> void no_transition(Ev const&,F&,int){ g_log += "NT "; }
 };
 typedef BE<TSE_> TSE;
+// two regions; in the SECOND one a transition whose action raises an event enters a state with a completion transition: the completion
+// transition fires before the raised event is dispatched, whatever the region's index (C10 "before any queued ... event")
+struct rgo {}; struct rping {};
+struct R2_ : state_machine_def<R2_> {
+  struct X0 : state<> {};
+  struct A : state<> {}; struct B : state<> {}; struct C : state<> {};
+  struct Raise { template<class E,class F,class S,class T> void operator()(E const&,F& f,S&,T&){ g_log += "go{ "; f.process_event(rping()); g_log += "} "; } };
+  struct InB { template<class E,class F,class S,class T> void operator()(E const&,F&,S&,T&){ g_log += "ping@B "; } };
+  struct InC { template<class E,class F,class S,class T> void operator()(E const&,F&,S&,T&){ g_log += "ping@C "; } };
+  struct Compl { template<class E,class F,class S,class T> void operator()(E const&,F&,S&,T&){ g_log += "completion "; } };
+  typedef mpl::vector<X0, A> initial_state;
+  struct transition_table : mpl::vector< Row<A,rgo,B,Raise,none>, Row<B,none,C,Compl,none>, Row<B,rping,none,InB,none>, Row<C,rping,none,InC,none> > {};
+  template<class F,class Ev> void no_transition(Ev const&,F&,int){ g_log += "NT "; }
+};
+typedef BE<R2_> R2;
 int main(int argc, char** argv) {
   if (argc > 1) g_only = argv[1];
+  { R2 m; m.start(); g_log.clear(); m.process_event(rgo());
+    report("completion-in-the-second-region.fires-before-the-event-raised-by-the-entering-transition", g_log == "go{ } completion ping@C ", "C10,C04,C13", "log=[" + g_log + "]"); }
   { TSE m; m.start(); g_log.clear(); m.process_event(senter());
     report("sub-entry.events-sent-to-the-submachine-by-its-initial-entry-run-right-after-the-entry", g_log == "I.entry{ } note1 note2 ", "C04,C13", "log=[" + g_log + "]"); }
   { QT m; m.start(); g_log.clear(); m.process_event(skick());
